@@ -21,6 +21,8 @@ Import ListNotations.
 Open Scope Q_scope.
 
 Definition Qltb (x y : Q) : bool := negb (Qle_bool y x).
+Definition qmin (x y : Q) : Q := if Qle_bool x y then x else y.
+Definition qmax (x y : Q) : Q := if Qle_bool x y then y else x.
 
 (** * odc/geo/math.py *)
 
@@ -179,6 +181,21 @@ Definition from_bbox (B : bbox) (crs : Z) (tight : bool) (shape : option shape_r
       end
   end.
 
+(** * The footprint request that produces the oracle box [B]
+    [GeoBoxBase.footprint(crs, buffer, npoints)]: the extent is grown by
+    [buffer] source pixels — a distance of [buffer * max(|rx|, |ry|)] — and
+    compute_output_geobox asks for [buffer = 0.9] and one boundary point per
+    256 pixels (at least 100, at most 10000 per side). *)
+Definition footprint_buffer (buffer : Q) (rs : Q * Q) : Q :=
+  buffer * qmax (Qabs (fst rs)) (Qabs (snd rs)).
+
+(** the expression before repair 99d08e4: max of the signed components *)
+Definition footprint_buffer_unrepaired (buffer : Q) (rs : Q * Q) : Q :=
+  buffer * qmax (fst rs) (snd rs).
+
+Definition footprint_npoints (ny nx : Z) : Z :=
+  Z.max 100 (Z.min (Z.max ny nx / 256) 10000).
+
 (** * odc/geo/overlap.py compute_output_geobox *)
 Record src := mkSrc {
   s_isgeobox : bool;      (* isinstance(gbox, GeoBox) (False for GCPGeoBox) *)
@@ -277,8 +294,6 @@ Definition g_x0 (g : gbox) : Q := ac (g_aff g).
 Definition g_x1 (g : gbox) : Q := ac (g_aff g) + inject_Z (g_nx g) * aa (g_aff g).
 Definition g_y0 (g : gbox) : Q := af (g_aff g).
 Definition g_y1 (g : gbox) : Q := af (g_aff g) + inject_Z (g_ny g) * ae (g_aff g).
-Definition qmin (x y : Q) : Q := if Qle_bool x y then x else y.
-Definition qmax (x y : Q) : Q := if Qle_bool x y then y else x.
 Definition g_left (g : gbox) : Q := qmin (g_x0 g) (g_x1 g).
 Definition g_right (g : gbox) : Q := qmax (g_x0 g) (g_x1 g).
 Definition g_bottom (g : gbox) : Q := qmin (g_y0 g) (g_y1 g).
